@@ -37,6 +37,15 @@ def finish(p, y, yshape, rng, leaves, weighted=True, skip=None, skip_exact=False
     for l in leaves:
         p.add('obs %s' % l)
 
+def near_tie(rng, v):
+    """a value a hair away from v: 1e-13 … 1e-9 relative-ish offsets, a few units in the last place, or v itself (exact tie)"""
+    k = rng.random()
+    if k < 0.15:
+        return v
+    if k < 0.5:
+        return ulps(v, rng.choice([-3, -2, -1, 1, 2, 3])) if v != 0 else rng.choice([-1, 1]) * 1e-300
+    return v + rng.choice([-1, 1]) * rng.choice([1e-13, 4e-11, 1e-11, 1e-10, 1e-9, 1e-12])
+
 def c02_case(rng, op, i, tier):
     """one single-application program for operation `op`; returns Prog or None"""
     p = Prog('c02_%s_%d' % (op, i))
@@ -90,6 +99,11 @@ def c02_case(rng, op, i, tier):
         b = [v + 0.17 for v in distinct(n)]
         if op == 'div':
             b = pos(n)
+        if op in ('elmax', 'elmin') and i % 3 == 2:
+            # near-ties: the other operand a hair away (1e-13 … 1e-9, or a few units in the last place) — NOT a tie for the
+            # code's equality (|a-b| <= 1e-240), so the whole gradient goes to the selected operand; plus some exact ties
+            b = [near_tie(rng, v) if rng.random() < 0.7 else w for v, w in zip(a, b)]
+            p.tag('near-ties')
         ta = p.tensor(shape, a, tracked=tr())
         tb = p.tensor(shape, b, tracked=tr())
         y = p.bind('%s %s %s' % (op, ta, tb))
@@ -176,8 +190,19 @@ def c02_case(rng, op, i, tier):
     elif op.endswith('along'):
         if not shape: shape = [3]
         n = prod(shape)
-        x = p.tensor(shape, distinct(n), tracked=True)
+        vals = distinct(n)
         d = rng.randrange(len(shape))
+        if op in ('maxalong', 'minalong') and i % 3 == 2 and shape[d] >= 2:
+            # near-ties inside a fibre: a runner-up a hair away from the extremum (not a tie for the code's equality)
+            stride = prod(shape[d + 1:])
+            for base in range(n):
+                if (base // stride) % shape[d] == 0 and rng.random() < 0.7:
+                    fibre = [base + k * stride for k in range(shape[d])]
+                    ext = max(fibre, key=lambda q: vals[q]) if op == 'maxalong' else min(fibre, key=lambda q: vals[q])
+                    other = rng.choice([q for q in fibre if q != ext])
+                    vals[other] = near_tie(rng, vals[ext])
+            p.tag('near-ties')
+        x = p.tensor(shape, vals, tracked=True)
         y = p.bind('%s %s %d' % (op, x, d))
         finish(p, y, shape[:d] + shape[d + 1:], rng, [x])
         p.tag('fibre%d' % shape[d])
